@@ -49,7 +49,8 @@ class C01(Property):
     min_nontrivial = {"quick": 400, "thorough": 5000}
 
     def gen(self, rnd, i, tier):
-        return gen_coupling.gen_dag(rnd, cycle="sufficient" if rnd.random() < 0.35 else None)
+        cyc = "sufficient" if rnd.random() < 0.35 else None
+        return gen_coupling.gen_dag(rnd, cycle=cyc, shipped=0.0 if cyc else 0.25)
 
     def run(self, spec):
         out = Outcome()
@@ -79,11 +80,13 @@ class C01(Property):
             out.count("delay_resolved_cycles_completed")
         if spec["meta"]["n_pull"]:
             out.count("compositions_with_pull_based_components")
+        if any(c.get("impl") == "shipped" for c in spec["comps"]):
+            out.count("compositions_with_shipped_components")
         return out
 
     def coverage_gaps(self, counters, tier):
         need = ["updates_checked", "pulls_served", "delay_upstream_of_push_based", "delay_downstream_of_push_based", "links_with_several_delays",
-                "delay_resolved_cycles_completed", "compositions_with_pull_based_components"] + [
+                "delay_resolved_cycles_completed", "compositions_with_pull_based_components", "compositions_with_shipped_components"] + [
                     "adapter_" + a for a in ("scale", "probe", "lin", "next", "prev", "step", "avg", "sum", "dfix", "dpull", "dpush")]
         gaps = [f"{k} never observed" for k in need if not counters.get(k)]
         if counters.get("aborted_runs", 0) > 0.05 * max(1, counters.get("compositions", 0)):
